@@ -77,7 +77,8 @@ def _on_alarm(*a):
     raise RunTimeout()
 
 
-RUN_SECONDS = 5.0          # every specification execution is a few dozen steps; the original runs in microseconds
+RUN_SECONDS = 5.0          # CPU seconds of the worker (ITIMER_PROF: a loaded machine cannot cause a timeout); every
+                           # specification execution is a few dozen steps, the original runs in microseconds
 CONVERT_SECONDS = 60.0
 
 
@@ -87,13 +88,13 @@ def observe(module, fn, p, decisions, recorder=None, inp=None):
     reset_globals(module, p)
     if recorder is not None:
         recorder.run = run
-    signal.signal(signal.SIGALRM, _on_alarm)
-    signal.setitimer(signal.ITIMER_REAL, RUN_SECONDS)
+    signal.signal(signal.SIGPROF, _on_alarm)
+    signal.setitimer(signal.ITIMER_PROF, RUN_SECONDS)
     try:
         try:
             out = mp.outcome(fn, mp.main_args(p, inp))
         finally:
-            signal.setitimer(signal.ITIMER_REAL, 0)
+            signal.setitimer(signal.ITIMER_PROF, 0)
     except RunTimeout:
         out = ['timeout', 'no result after %g s' % RUN_SECONDS]
     return dict(log=run.log, out=out, used=run.di, gl=mp.globals_now(p, module))
@@ -220,13 +221,13 @@ def _replay_chunk(args):
                 if record_namer:
                     current['pid'] = pid
                 import signal
-                signal.signal(signal.SIGALRM, _on_alarm)
-                signal.setitimer(signal.ITIMER_REAL, CONVERT_SECONDS)
+                signal.signal(signal.SIGPROF, _on_alarm)
+                signal.setitimer(signal.ITIMER_PROF, CONVERT_SECONDS)
                 try:
                     try:
                         conv[o['name']] = convert_fn(fn, o)
                     finally:
-                        signal.setitimer(signal.ITIMER_REAL, 0)
+                        signal.setitimer(signal.ITIMER_PROF, 0)
                 except RunTimeout:
                     conv[o['name']] = None
                     conv_errors.append(dict(pid=pid, opt=o['name'], error='Timeout: conversion did not finish within %g s' % CONVERT_SECONDS))
